@@ -1,4 +1,5 @@
 import SccacheModel.Model.Dist
+import SccacheModel.Model.ClientTc
 import SccacheModel.Gen.Args
 
 /-! # C13 — distributed compiles match local ones in artefacts and status, or fall back
@@ -13,6 +14,70 @@ exercised end to end — partial. -/
 
 namespace C13
 open DistM
+
+/-! ## the client's toolchain map (`ClientTcM`): "a local toolchain cache too small for the packaged toolchain is reported" — every time -/
+
+open ClientTcM in
+theorem clientTc_inv_init (size : Nat → Nat) (cap : Nat) : Inv size { cap := cap } := by
+  intro w i h; simp at h
+
+open ClientTcM in
+theorem clientTc_inv_put (size idOf : Nat → Nat) (s : St) (w : Nat) (h : Inv size s) : Inv size (put size idOf s w).1 ∧ (put size idOf s w).1.cap = s.cap := by
+  unfold put
+  split
+  · exact ⟨h, rfl⟩
+  · split
+    · exact ⟨h, rfl⟩
+    · rename_i hle
+      refine ⟨?_, rfl⟩
+      intro w' i hm
+      simp only [List.mem_cons, Prod.mk.injEq] at hm
+      rcases hm with ⟨rfl, _⟩ | hm
+      · simp only; omega
+      · exact h w' i hm
+
+open ClientTcM in
+/-- a toolchain that does not fit is never in the map, so `put_toolchain` reports it in **every** state the invariant holds in -/
+theorem clientTc_too_small_reported (size idOf : Nat → Nat) (s : St) (w : Nat) (h : Inv size s) (hs : size w > s.cap) :
+    put size idOf s w = (s, .tooLarge) := by
+  unfold put
+  cases hl : s.weak.lookup w with
+  | some i =>
+    have hm : (w, i) ∈ s.weak := by
+      have := List.lookup_eq_some_iff.mp hl
+      obtain ⟨l1, l2, he, _⟩ := this
+      rw [he]; simp
+    have := h w i hm
+    omega
+  | none => simp [hs]
+
+open ClientTcM in
+/-- `too_small_reported_every_time`: over **every** history of requests (with restarts, which keep the persisted map) starting from an
+    empty map, each request for a compiler whose packaged toolchain does not fit the local toolchain cache ends in the
+    "could not cache dist toolchain" error — the first one and every later one -/
+theorem too_small_reported_every_time (size idOf : Nat → Nat) (cap : Nat) (ws : List Nat) :
+    ∀ (s : St), Inv size s → s.cap = cap →
+      ∀ k (hk : k < ws.length), size ws[k] > cap → (run size idOf s ws).2[k]? = some .tooLarge := by
+  induction ws with
+  | nil => intro s _ _ k hk; simp at hk
+  | cons w ws ih =>
+    intro s hinv hcap k hk hsz
+    simp only [run]
+    obtain ⟨hinv', hcap'⟩ := clientTc_inv_put size idOf s w hinv
+    cases k with
+    | zero =>
+      simp only [List.getElem_cons_zero] at hsz
+      rw [clientTc_too_small_reported size idOf s w hinv (by omega)]
+      simp
+    | succ k =>
+      simp only [List.getElem_cons_succ] at hsz
+      simp only [List.getElem?_cons_succ]
+      exact ih _ hinv' (by omega) k (by simpa using hk) hsz
+
+open ClientTcM in
+/-- non-vacuity: cache of 10 bytes, compiler 1 packs to 50 bytes, compiler 2 to 5: requests 1 2 1 2 1 -/
+example : (run (fun w => if w = 1 then 50 else 5) (· + 100) { cap := 10 } [1, 2, 1, 2, 1]).2 =
+    [.tooLarge, .ok 102, .tooLarge, .ok 102, .tooLarge] := by decide
 
 /-- `fallback_total`: over **every** stage and error class, the only way a request ends in an sccache error is an
     HTTP-4xx rejection or a toolchain that does not fit the local toolchain cache -/
